@@ -1,6 +1,7 @@
 CONSTANTS
   MaxUI = 2
   Kinds = {"finite", "endless"}
+  ShowBumpsVersion = TRUE
   TemplateHasQ = TRUE
 SPECIFICATION Spec
 INVARIANTS TypeOK OneAlive ConvergenceLostCancel
